@@ -256,6 +256,11 @@ ENSURES(O_PEND(h) ==> (!H_PEND(h) || h->bucket.rh.clean >= OLD(h->bucket.rh.clea
 ENSURES(O_PEND(h) && !H_PEND(h) ==> (h->bucket.count == OLD(h->bucket.rh.count) && h->bucket.hash == OLD(h->bucket.rh.hash)))
 /* the bucket handed back lies inside the array, below the effective bucket count, and is clean */
 ENSURES(H_IS_BUCKET(h, RESULT) && H_BUCKET_IDX(RESULT) < O_EFFN(h))
+/* ... and it is the bucket the EFFECTIVE function (the pending one while a rehash is in progress) selects
+ * for k: the last consultation was that function with (k, effective count) and its answer is the bucket.
+ * This is what makes an element inserted during a rehash findable by its key during and after it. */
+ENSURES(H_BUCKET_IDX(RESULT) == vf_hash_ret && vf_hash_k == k && vf_hash_m == O_EFFN(h))
+ENSURES(O_PEND(h) ==> (vf_hash_calls1 == OLD(vf_hash_calls1) + 1 && vf_hash_calls2 == OLD(vf_hash_calls2) + 1))
 ENSURES((O_PEND(h) && H_BUCKET_IDX(RESULT) == vf_w_g) ==> H_BYTE(RESULT->cst) == H_BYTE(h->bucket.cst))
 ENSURES(h->bucket.capacity == OLD(h->bucket.capacity) && h->bucket.at == OLD(h->bucket.at) && h->count == OLD(h->count))
 ;
